@@ -1217,7 +1217,18 @@ impl Universe {
                     out.budget_exceeded = true;
                     out.find("step-budget", format!("operation exceeded {STEP_BUDGET_PER_OP} trapped calls"), step);
                 }
-                // starve it so that it unwinds
+                // starve it so that it unwinds (closes are let through: failing them would
+                // only manufacture descriptor leaks)
+                if nr == libc::SYS_close {
+                    self.workers[t].state = WState::Running;
+                    self.workers[t].notif = None;
+                    step += 1;
+                    let _ = seam::cont(self.listener, n.id);
+                    if !self.wait_next(&mut out, &mut world) {
+                        break 'main;
+                    }
+                    continue;
+                }
                 ev.answer = Answer::Fail(libc::EMFILE);
                 self.workers[t].state = WState::Running;
                 self.workers[t].notif = None;
